@@ -247,11 +247,18 @@ def run_c05(tier: str) -> int:
     # (c) determinism across processes / hash seeds
     sample = recipes[:: max(1, len(recipes) // 1500)]
     here = observe(sample)
-    for hs in ("0", "4242"):
-        there = observe_other_process(sample, hs)
+    for hs in ("0", "4242", "7"):
+        # the last process hashes the values in the opposite order: a signature must not depend on what
+        # the process hashed before
+        order = list(reversed(range(len(sample)))) if hs == "7" else list(range(len(sample)))
+        got = observe_other_process([sample[k] for k in order], hs)
+        there = [None] * len(sample)
+        for (k, o) in zip(order, got):
+            there[k] = o
         for (rc, a, b) in zip(sample, here, there):
             if a != b:
-                rep.violation("C05|process-dependent|%s" % kind(rc), {"value": rc, "here": a, "other_process": b, "hashseed": hs})
+                rep.violation("C05|process-dependent|%s" % kind(rc), {"value": rc, "here": a, "other_process": b, "hashseed": hs,
+                                                                      "order": "reversed" if hs == "7" else "same"})
                 break
     # (c') size limit: a coded SEQUENCE_TOO_LONG, also for nested sequences and with the option changed
     nlim = size_limit_probe(rep)
